@@ -86,7 +86,7 @@ CLAIMED["C17"] = dict(
     level="exploration",
     engine="E3",
     technique="exhaustive enumeration of small reference graphs (all cycles / dangling / wrong-kind targets), chains, malformed values and entity documents, each executed under a CPU-time and memory watchdog with an open() monitor",
-    text="Every reference graph with up to 2 (3) nodes over 9 node kinds with every reference slot pointing at nothing / itself / every other node / a dangling id, inside and outside defs, plus chains, cycles and doubling chains, ~600 malformed-value documents and 7 DOCTYPE/entity documents are converted in a sandboxed fork with a 4 s CPU-time budget and a 1 GiB address-space limit; outcome must be 'returned a grammar-conforming document' or 'raised'; external-entity canary files are watched with strace.",
+    text="Every reference graph with up to 2 (3) nodes over 9 node kinds with every reference slot pointing at nothing / itself / every other node / a dangling id, inside and outside defs, plus chains, cycles and doubling chains, ~600 malformed-value documents and 7 DOCTYPE/entity documents are converted in a sandboxed fork with a 10 s CPU-time budget and a 1 GiB address-space limit; outcome must be 'returned a grammar-conforming document' or 'raised'; external-entity canary files are watched with strace.",
     note="Termination is established only for the enumerated documents; a TIMEOUT is evidence, not a proof, of non-termination. Trusted: R4, the sandbox (mc/sandbox.py), strace/inotify for the entity monitor.",
     design="DESIGN.md 3/C17",
 )
